@@ -4,7 +4,8 @@ CONSTANTS
   G = {1, 2, 3}
   SizeRange = {1, 2, 3}
   CAS = TRUE
-  Emit = FALSE
+  Retries = 0
+  Emit = "none"
 VIEW view
 INVARIANTS TypeOK ExactAtQuiescence
 PROPERTIES MinNeverGrows MaxNeverShrinks Termination
